@@ -21,6 +21,7 @@ Definition o2 (f : Z -> Z -> option Z) : list Z -> list Z :=
 Definition table2 : list (string * (list Z -> list Z)) :=
   ("ctor_vect", fun l => ctor_vect l :: nil) :: ("cast_vect", fun l => cast_vect (A 0 l)) ::
   ("isZero_I", b1 isZero_I) :: ("isZero_i64", b1 isZero_i64) :: ("isZero_u64", b1 isZero_u64) :: ("priv_sign", f1 priv_sign) ::
+  ("opAnd_u64_fixed", f2 opAnd_u64_fixed) :: ("opAnd_u32_fixed", f2 opAnd_u32_fixed) ::
   ("nonZero", fun l => b2z (negb (Z.eqb (nonZero (A 0 l)) 0)) :: nil) ::
   ("compare_I", f2 compare_I) :: ("absCompare_I", f2 absCompare_I) :: ("absCompare_d", f3 absCompare_d) ::
   ("absCompare_f", f3 absCompare_f) :: ("absCompare_u64", f2 absCompare_u64) :: ("absCompare_u32", f2 absCompare_u32) ::
